@@ -153,7 +153,9 @@ def _sweep(ctx: Ctx, L: int):
 
 
 TAGS_Q = ['{% "a" %}', "{% 'a' %}", "{# it's #}", '{# "q" #}', "{{ 'a' }}", '{{ "a b" }}', '<!-- "a" -->', "<!-- it's -->", "<!-- 'a' \"b\" -->",
-          '{% a "b"\n"c" %}', "{%'a'%}", '{{"a"}}']
+          '{% a "b"\n"c" %}', "{%'a'%}", '{{"a"}}',
+          # bodies that contain their own delimiter character
+          '{% if n % 2 == "odd" %}', "{{ t(\"it's\", {}) }}", "{%%a's%}", "{# it's #1 #}", '{{ {"k": "v"} }}', "<!-- a - \"b\" -- c's -->"]
 PRE = ["", "x ", '"', "'", "it's ", '"q" ', "\n", "s' "]
 SUF = ["", " y", '"', "'s", " 'z'", ' "w".', "\n", "."]
 
@@ -163,7 +165,7 @@ def _tag_family(ctx: Ctx):
     for pre in PRE:
         for t1 in TAGS_Q:
             for mid in ["", " ", " and ", '" "']:
-                for t2 in [""] + TAGS_Q[:6]:
+                for t2 in [""] + TAGS_Q[:4]:
                     for suf in SUF:
                         idx += 1
                         if idx % ctx.nshards != ctx.shard:
